@@ -1,0 +1,95 @@
+//go:build verif
+
+// Contracts for the verification machinery in /verif (comment-only, built only with -tags verif).
+
+package main
+
+// ---- C10: BGP announcement eligibility ----
+
+// Carried: entry (i,j,k) of the endpoint slices carries address x and is not filtered out by f.
+//@ pred Carried(eps []discovery.EndpointSlice, f func(*string) bool, i int, j int, k int, x string) :=
+//@     0 <= i && i < len(eps) && 0 <= j && j < len(eps[i].Endpoints) && 0 <= k && k < len(eps[i].Endpoints[j].Addresses)
+//@     && !f(eps[i].Endpoints[j].NodeName) && eps[i].Endpoints[j].Addresses[k] == x
+// ReadyAddr: x is carried by at least one unfiltered entry and every unfiltered entry carrying it is ready or serving.
+//@ pred ReadyAddr(eps []discovery.EndpointSlice, f func(*string) bool, x string) :=
+//@     forall i int, j int, k int :: Carried(eps, f, i, j, k, x) ==> epslices.Serv(eps[i].Endpoints[j].Conditions)
+// Healthy: some address carried by an unfiltered entry (i0,j0,k0) is ready.
+//@ pred Healthy(eps []discovery.EndpointSlice, f func(*string) bool) := exists i0 int, j0 int, k0 int ::
+//@     0 <= i0 && i0 < len(eps) && 0 <= j0 && j0 < len(eps[i0].Endpoints) && 0 <= k0 && k0 < len(eps[i0].Endpoints[j0].Addresses)
+//@     && !f(eps[i0].Endpoints[j0].NodeName) && ReadyAddr(eps, f, eps[i0].Endpoints[j0].Addresses[k0])
+
+// Done(a,b,c,i,j,k): entry (i,j,k) precedes (a,b,c) in iteration order.
+//@ pred Done(a int, b int, c int, i int, j int, k int) := i < a || (i == a && (j < b || (j == b && k < c)))
+//@ pred ReadyInv(eps []discovery.EndpointSlice, f func(*string) bool, ready map[string]bool, a int, b int, c int) :=
+//@     (forall x string, i int, j int, k int :: Done(a, b, c, i, j, k) && Carried(eps, f, i, j, k, x) ==> x in ready) &&
+//@     (forall x string :: x in ready ==> exists i int, j int, k int :: Done(a, b, c, i, j, k) && Carried(eps, f, i, j, k, x)) &&
+//@     (forall x string, i int, j int, k int :: Done(a, b, c, i, j, k) && Carried(eps, f, i, j, k, x) && !epslices.Serv(eps[i].Endpoints[j].Conditions) ==> !ready[x]) &&
+//@     (forall x string :: x in ready && !ready[x] ==> exists i int, j int, k int :: Done(a, b, c, i, j, k) && Carried(eps, f, i, j, k, x) && !epslices.Serv(eps[i].Endpoints[j].Conditions))
+
+//@ func hasHealthyEndpoint
+//@   pureparam filterNode
+//@   ensures result == Healthy(eps, filterNode)
+//@   modifies fresh map[string]bool
+//@   loop 1 invariant ready != nil && ReadyInv(eps, filterNode, ready, iter, 0, 0)
+//@   loop 2 invariant ready != nil && 0 <= idx(1) && idx(1) < len(eps) && ReadyInv(eps, filterNode, ready, idx(1), iter, 0)
+//@   loop 3 invariant ready != nil && 0 <= idx(1) && idx(1) < len(eps) && 0 <= idx(2) && idx(2) < len(eps[idx(1)].Endpoints)
+//@   loop 3 invariant !filterNode(eps[idx(1)].Endpoints[idx(2)].NodeName)
+//@   loop 3 invariant ReadyInv(eps, filterNode, ready, idx(1), idx(2), iter)
+//@   loop 4 invariant ReadyInv(eps, filterNode, ready, len(eps), 0, 0)
+//@   loop 4 invariant forall x string :: x in visited ==> x in ready && !ready[x]
+
+// PoolWF: data invariant of a parsed pool (established by the config parser): no nil advertisement.
+//@ pred PoolWF(pool *config.Pool) := pool != nil &&
+//@     (forall i int :: 0 <= i && i < len(pool.BGPAdvertisements) ==> pool.BGPAdvertisements[i] != nil) &&
+//@     (forall i int :: 0 <= i && i < len(pool.L2Advertisements) ==> pool.L2Advertisements[i] != nil)
+//@ pred SelectsBGP(pool *config.Pool, node string) :=
+//@     exists i int :: 0 <= i && i < len(pool.BGPAdvertisements) && pool.BGPAdvertisements[i].Nodes[node]
+
+//@ func poolMatchesNodeBGP
+//@   requires PoolWF(pool)
+//@   ensures result == SelectsBGP(pool, node)
+//@   modifies nothing
+//@   loop 1 invariant forall j int :: 0 <= j && j < iter ==> !pool.BGPAdvertisements[j].Nodes[node]
+
+// nodeFilter(local, me): the spec-level node filter. It drops an endpoint entry exactly when the
+// traffic policy is Local and the entry is not on node me (missing node name included).
+// apply(f, isNil, value) is the application of a function value to a *string argument given by value.
+//@ ufun nodeFilter(bool, string) func(*string) bool
+//@ axiom nodeFilterDef: forall local bool, me string, n bool, v string :: { apply(nodeFilter(local, me), n, v) }
+//@     apply(nodeFilter(local, me), n, v) == (local && (n || v != me))
+
+// The two closures of ShouldAnnounce are exactly these filters (checked against their bodies).
+//@ func (*bgpController).ShouldAnnounce$1
+//@   requires c != nil
+//@   denotes nodeFilter(true, c.myNode)
+//@ func (*bgpController).ShouldAnnounce$2
+//@   denotes nodeFilter(false, "")
+
+// HealthyOn(eps, local, me): some address carried by an entry (on node me when local) has every
+// entry (on node me when local) that carries it ready or serving.
+//@ pred HealthyOn(eps []discovery.EndpointSlice, local bool, me string) := Healthy(eps, nodeFilter(local, me))
+
+//@ pred AnnounceBGP(c *bgpController, pool *config.Pool, svc *v1.Service, eps []discovery.EndpointSlice, nodes map[string]*v1.Node) :=
+//@     SelectsBGP(pool, c.myNode) && !k8snodes.NetUnavail(nodes[c.myNode])
+//@     && (c.ignoreExcludeLB || !k8snodes.Excluded(nodes[c.myNode]))
+//@     && HealthyOn(eps, false, "")
+//@     && (svc.Spec.ExternalTrafficPolicy == v1.ServiceExternalTrafficPolicyTypeLocal ==> HealthyOn(eps, true, c.myNode))
+
+//@ func (*bgpController).ShouldAnnounce
+//@   requires c != nil && PoolWF(pool) && svc != nil
+//@   ensures [iff] (result == "") == old(AnnounceBGP(c, pool, svc, epSlices, nodes))
+//@   ensures [notOwner] (result == "notOwner") == old(!SelectsBGP(pool, c.myNode))
+//@   ensures [netUnavail] (result == "nodeNetworkUnavailable") == old(SelectsBGP(pool, c.myNode) && k8snodes.NetUnavail(nodes[c.myNode]))
+//@   ensures [excluded] (result == "nodeLabeledExcludeBalancers") ==
+//@       old(SelectsBGP(pool, c.myNode) && !k8snodes.NetUnavail(nodes[c.myNode]) && !c.ignoreExcludeLB && k8snodes.Excluded(nodes[c.myNode]))
+//@   modifies fresh map[string]bool
+
+// C10 lemma: if every address is carried with one node name, a ready local endpoint is a ready endpoint.
+//@ pred SameNode(p *string, q *string) := (p == nil && q == nil) || (p != nil && q != nil && *p == *q)
+//@ pred SingleNodePerAddr(eps []discovery.EndpointSlice) := forall i int, j int, k int, i2 int, j2 int, k2 int ::
+//@     0 <= i && i < len(eps) && 0 <= j && j < len(eps[i].Endpoints) && 0 <= k && k < len(eps[i].Endpoints[j].Addresses) &&
+//@     0 <= i2 && i2 < len(eps) && 0 <= j2 && j2 < len(eps[i2].Endpoints) && 0 <= k2 && k2 < len(eps[i2].Endpoints[j2].Addresses) &&
+//@     eps[i].Endpoints[j].Addresses[k] == eps[i2].Endpoints[j2].Addresses[k2]
+//@     ==> SameNode(eps[i].Endpoints[j].NodeName, eps[i2].Endpoints[j2].NodeName)
+//@ lemma C10.localImpliesAll: forall eps []discovery.EndpointSlice, me string ::
+//@     SingleNodePerAddr(eps) && HealthyOn(eps, true, me) ==> HealthyOn(eps, false, "")
